@@ -49,6 +49,17 @@ def _identify(vec, Fd, Ts, L, phases, centre, prefer):
 
 
 def record_one(job):
+    """comparisons are total: whatever the code under test does while it is driven and observed, a trace comes back"""
+    try:
+        return _record_one(job)
+    except Exception as ex:  # noqa
+        return {"id": job["id"], "seed": job["seed"], "budget": job["budget"], "Ts": 0.0, "FdTs": 0.0, "L": 0,
+                "ev": [{"op": "construct", "sh": [], "kept": True, "count": 0, "shape": [], "first": [-1, -1], "last": [-1, -1],
+                        "ph": 0, "inner": False,
+                        "exc": f"driving / observing the generator raised {type(ex).__name__}: {ex}"[:240]}]}
+
+
+def _record_one(job):
     """job = dict(id, seed, budget) -> trace dict (JSON-able); never raises for generator faults"""
     from . import c14
     from pyphysim.channels.fading_generators import JakesSampleGenerator
@@ -58,7 +69,10 @@ def record_one(job):
     # normalised Doppler: ordinary fading rates, and (every third trace) slow fading down to 1e-7 per sample, where
     # only positions of 10^7 .. 10^10 samples show that the channel moves.  (Below 1e-7 neighbouring samples get
     # too close for an unambiguous identification of the index; stage R covers 1e-9 .. 1e-7 at emitted indexes.)
-    fdts = rng.uniform(0.02, 0.2) if rng.random() < 0.67 else 10 ** rng.uniform(-7, -1.7)
+    u = rng.random()
+    fdts = rng.uniform(0.02, 0.2) if u < 0.57 else 10 ** rng.uniform(-7, -1.7)
+    if u >= 0.88:      # half a turn to several whole turns per sample, both signs
+        fdts = rng.choice([0.5, 0.9, 1.0, 1.5, 2.0, 2.5, 3.0, rng.uniform(0.5, 3.0)]) * rng.choice([1, 1, -1])
     Fd = fdts / Ts
     # ray counts below, at and above an internal pass size of 16, mostly not multiples of it
     L = rng.randint(4, 16) if rng.random() < 0.55 else rng.choice([17, 20, 24, 31, 32, 33, 40, 47, 63, 64])
@@ -250,7 +264,7 @@ def _cfg():
     from . import c14
     defs = {"ShapeSet": "{}", "Shape0": "{}", "Dev": tlc.tla({k: False for k in c14.DEVS})}
     cons = {"Kind": '"jakes"', "FormSalt": "0", "GenSizes": "{}", "SkipSizes": "{}", "BigReps": "{}", "Warm": "{0}", "MaxLen": "1000",
-            "MaxGens": "2", "GenDefault": "TRUE", "Lattice": "FALSE", "L": "1", "FdQ": "0"}
+            "MaxGens": "2", "GenDefault": "TRUE", "Lattice": "FALSE", "HalfCos": "FALSE", "L": "1", "FdQ": "0"}
     cfg = tlc.cfg_text(constants=cons, defs=defs, init="TInit", next_="TNext",
                        invariants=["Conforms", "TypeOK", "Count", "Aligned", "OnGrid", "PhasesFixed", "Independent", "BuffersDistinct"])
     return cfg, defs
